@@ -4,7 +4,7 @@ use crate::build::{self, Front, GEOMS, MAP_FRONTS, SET_FRONTS};
 use crate::ctx::{finish, guard, Ctx, Ev, Spec};
 use crate::gen::{self, Case, Kv};
 use crate::json::J;
-use fst::raw::Fst;
+use fst::raw::{Builder, Fst};
 use fst::{IntoStreamer, Map, Set, Streamer};
 
 fn mism(what: &str, i: usize, got: Option<(&[u8], u64)>, want: Option<&(Vec<u8>, u64)>) -> String {
@@ -261,6 +261,9 @@ pub fn run(ctx: &Ctx) -> i32 {
         gen::for_shard(&fams, shard, n, |case| check_case(case, ev));
     });
     let mut ev = ev;
+    if ctx.tier == crate::ctx::Tier::Thorough && std::env::var_os("VERIF_SKIP_4GIB").is_none() {
+        huge_4gib(ctx, &mut ev);
+    }
     ev.note("geometries", J::A(GEOMS.iter().map(|g| J::s(format!("{}x{}", g.0, g.1))).collect()));
     let floors = build::structural_floors(ctx.tier == crate::ctx::Tier::Thorough);
     finish(
@@ -268,7 +271,7 @@ pub fn run(ctx: &Ctx) -> i32 {
         ev,
         Spec {
             level: "exploration",
-            rule: "one evaluation = one (key/value sequence, builder front end / cache geometry) build whose bytes are reopened and streamed through the enumeration APIs and compared element-wise with the inserted ordered map; cases: ALL subsets of {a,b}^<=3 x 3 value styles x 6 cache geometries, fan-out palette {0,1,2,31,32,33,63,64,65,255,256} x depth x finality x output shapes, all 256 byte values, keys up to 70000 bytes, corpora, random maps, bulk maps sized for 1..3 (quick) / 1..4 (thorough) byte address deltas; non-trivial = at least one key; distinct = distinct (content, front end) fingerprints",
+            rule: "one evaluation = one (key/value sequence, builder front end / cache geometry) build whose bytes are reopened and streamed through the enumeration APIs and compared element-wise with the inserted ordered map; cases: ALL subsets of {a,b}^<=3 x 3 value styles x 6 cache geometries, fan-out palette {0,1,2,31,32,33,63,64,65,255,256} x depth x finality x output shapes, all 256 byte values, keys up to 70000 bytes, corpora, random maps, bulk maps sized for 1..3 (quick) / 1..4 (thorough) byte address deltas, a two-key FST whose root needs 4-byte deltas, a fan-out x output-width grid, dense product sets, (thorough) one FST larger than 4 GiB with a suffix re-used beyond the 4 GiB mark; non-trivial = at least one key; distinct = distinct (content, front end) fingerprints",
             assumptions: vec![
                 "oracle = BTreeMap-ordered input sequence; comparison is on keys, values, order and multiplicity".into(),
                 "structural coverage classes (cov:*) are computed by the harness' independent decoder, not by the reader under test".into(),
@@ -278,4 +281,83 @@ pub fn run(ctx: &Ctx) -> i32 {
             exhaustive: Some(false),
         },
     )
+}
+
+
+/// thorough only: one FST larger than 4 GiB (addresses beyond u32), with a suffix that is first emitted past the 4 GiB
+/// mark and then re-used from the node cache. Keys are regenerated from the seed instead of being kept in memory.
+fn huge_4gib(ctx: &Ctx, ev: &mut Ev) {
+    const CHUNK: usize = 64 << 20;
+    const NBIG: usize = 66; // 66 x 64 MiB of two-byte nodes > 4 GiB
+    let fill = |i: usize, buf: &mut Vec<u8>| {
+        buf.clear();
+        buf.push(0x80 + i as u8);
+        let mut x = crate::rng::mix(ctx.seed ^ (i as u64) << 32);
+        while buf.len() < CHUNK {
+            x = x.wrapping_mul(0x9E3779B97F4A7C15).wrapping_add(1);
+            // bytes >= 0x80 are not "common inputs": every node takes two bytes
+            for s in 0..8 {
+                buf.push(0x80 | (x >> (8 * s)) as u8);
+            }
+        }
+    };
+    let tail: Vec<u8> = (0..200).map(|j| 0x80 | crate::rng::mix(ctx.seed + j) as u8).collect();
+    let r = guard(|| -> Result<(), String> {
+        let mut b = Builder::new(Vec::with_capacity(5usize << 30)).map_err(|e| e.to_string())?;
+        let mut buf: Vec<u8> = Vec::with_capacity(CHUNK + 16);
+        for i in 0..NBIG {
+            fill(i, &mut buf);
+            b.insert(&buf, 1000 + i as u64).map_err(|e| e.to_string())?;
+        }
+        let mark = b.bytes_written();
+        for j in 1..=3u8 {
+            let mut k = vec![0xf0, j];
+            k.extend_from_slice(&tail);
+            b.insert(&k, 7_000_000 + j as u64).map_err(|e| e.to_string())?;
+        }
+        let bytes = b.into_inner().map_err(|e| e.to_string())?;
+        if mark < (1u64 << 32) {
+            return Err(format!("harness: only {} bytes before the shared tails", mark));
+        }
+        let f = Fst::new(&bytes[..]).map_err(|e| e.to_string())?;
+        if f.len() != NBIG + 3 {
+            return Err(format!("len() = {} for {} keys", f.len(), NBIG + 3));
+        }
+        for j in 1..=3u8 {
+            let mut k = vec![0xf0, j];
+            k.extend_from_slice(&tail);
+            let got = f.get(&k).map(|o| o.value());
+            if got != Some(7_000_000 + j as u64) {
+                return Err(format!("get(key #{} sharing a suffix that lies beyond the 4 GiB mark) = {:?}, want {}", j, got, 7_000_000 + j as u64));
+            }
+        }
+        for i in [0usize, NBIG / 2, NBIG - 1].iter() {
+            fill(*i, &mut buf);
+            if f.get(&buf).map(|o| o.value()) != Some(1000 + *i as u64) {
+                return Err(format!("get(64 MiB key #{}) wrong", i));
+            }
+        }
+        // full stream: count, order, lengths, values, first/last bytes
+        let mut s = f.stream();
+        let mut n = 0usize;
+        while let Some((k, v)) = s.next() {
+            let ok = if n < NBIG { k.len() == buf.capacity().min(k.len()) && k[0] == 0x80 + n as u8 && v.value() == 1000 + n as u64 && k.len() >= CHUNK } else { k.len() == 202 && k[1] == (n - NBIG + 1) as u8 && &k[2..] == &tail[..] && v.value() == 7_000_000 + (n - NBIG + 1) as u64 };
+            if !ok {
+                return Err(format!("streamed entry #{} is wrong (key length {}, value {})", n, k.len(), v.value()));
+            }
+            n += 1;
+        }
+        if n != NBIG + 3 {
+            return Err(format!("stream yields {} entries, want {}", n, NBIG + 3));
+        }
+        f.verify().map_err(|e| format!("verify() on the 4 GiB FST: {}", e))?;
+        Ok(())
+    });
+    ev.eval(Some(0x4_6_1_b));
+    ev.count("cov:fst-larger-than-4GiB");
+    match r {
+        Ok(Ok(())) => {}
+        Ok(Err(e)) => ev.violate("roundtrip-mismatch", format!("FST larger than 4 GiB: {}", e), J::s("66 keys of 64 MiB + 3 keys sharing a 200-byte suffix first emitted beyond the 4 GiB mark")),
+        Err(p) => ev.violate("enumerate-panic", format!("FST larger than 4 GiB: {}", p), J::s("66 keys of 64 MiB + 3 keys sharing a suffix beyond the 4 GiB mark")),
+    }
 }
